@@ -415,6 +415,6 @@ func build(tier string) ([]runner.Instance, time.Duration) {
 }
 
 func main() {
-	runner.Main(runner.Options{Property: "C08", Level: "exploration", Build: build,
+	runner.Main(runner.Options{Property: "C08", Level: "exploration", Build: build, RacePoints: true,
 		Assume: []string{"model of sync/context/channels in verif/vs (DESIGN §2.2)", "window of a subscriber: Publish invoked after its Subscribe returned and returned before its Unsubscribe was invoked (logical times)", "small scope: 2 subscribers (3 in the churn family), <=2 publishers x <=2 messages, <=2 dispatch workers"}})
 }
